@@ -3,6 +3,9 @@
 package memory
 
 import (
+	"encoding/binary"
+	"fmt"
+	"reflect"
 	"time"
 
 	"github.com/chihaya/chihaya/storage"
@@ -53,13 +56,35 @@ func VerifDump(ps storage.PeerStore) []VerifEntry {
 		s.RLock()
 		for ih, sw := range s.swarms {
 			for k, t := range sw.seeders {
-				out = append(out, VerifEntry{InfoHash: ih, Shard: i, Seeder: true, Key: string(k), MTime: t})
+				out = append(out, VerifEntry{InfoHash: ih, Shard: i, Seeder: true, Key: verifKey(k), MTime: t})
 			}
 			for k, t := range sw.leechers {
-				out = append(out, VerifEntry{InfoHash: ih, Shard: i, Seeder: false, Key: string(k), MTime: t})
+				out = append(out, VerifEntry{InfoHash: ih, Shard: i, Seeder: false, Key: verifKey(k), MTime: t})
 			}
 		}
 		s.RUnlock()
 	}
 	return out
+}
+
+
+// verifKey renders a stored peer key as bytes: the key itself while it is a string (the layout the model describes); for any
+// other representation, what the store's OWN decodePeerKey makes of it (peer ID, port, address as decoded) - so that a
+// change of the key's Go type alone neither breaks the harness nor changes what is compared.
+func verifKey(pk serializedPeer) (out string) {
+	v := reflect.ValueOf(pk)
+	if v.Kind() == reflect.String {
+		return v.String()
+	}
+	defer func() {
+		if recover() != nil {
+			out = fmt.Sprint(pk)
+		}
+	}()
+	p := decodePeerKey(pk)
+	b := make([]byte, 22+len(p.IP.IP))
+	copy(b, p.ID[:])
+	binary.BigEndian.PutUint16(b[20:22], p.Port)
+	copy(b[22:], p.IP.IP)
+	return string(b)
 }
